@@ -143,7 +143,7 @@ def _result(kind: int, failed_at: int):
             partitions_quick=[f"kind == {k}" for k in range(9) if k != 2] + [f"kind == 2 and pol == {p} and att {a}" for p in (0, 1, 2, 4) for a in ("== 0", ">= 1")] + [f"kind == 2 and pol == 3 and nw == {nn} and att == {aa} and d == {dd}" for nn in (1, 2, 3) for aa in (1, 2) for dd in (0, 1, 2)],
             partitions_thorough=[f"kind == {k} and nw == {n}" for k in range(9) if k != 2 for n in (1, 2, 3)]
             + [f"kind == 2 and pol == {p} and att == {a} and nw == {n}" for p in (0, 1, 2, 4) for a in (0, 1, 2) for n in (1, 2, 3)]
-            + [f"kind == 2 and pol == 3 and nw == {n} and att == {a} and d == {d}" for n in (1, 2, 3) for a in (1, 2) for d in range(4)],  # (pol 3, att 0) is the class of KF-C11-1; the cover check accepts it as excluded
+            + [f"kind == 2 and pol == 3 and nw == {n} and att == {a} and d == {d} and q == {qq}" for n in (1, 2, 3) for a in (1, 2) for d in range(4) for qq in (0, 1)],  # (pol 3, att 0) is the class of KF-C11-1; the cover check accepts it as excluded
             what="TickStepResult (9 result kinds incl. failure with 5 policy kinds): live reduce (now1, run_id) and replay reduce "
                  "(now2, None) from states equal up to timestamps give states equal up to timestamps",
             bounds={"num_workers": "1..3", "queue": "0..QMAX", "attempts": "0..2", "timestamps/now": "0..6 each, independent",
